@@ -96,9 +96,11 @@ CHECKS = {
        "declared lengths, auto-increment high-water mark, key bookkeeping are preserved by every successful statement), insert_enforces_not_null_partial, "
        "exec_fail_no_effect (a failing statement cancels the tx, committed state unchanged), reachable_inv_partial (every committed state reachable by any sequence of "
        "transactions/statements/failures/rollbacks/savepoints), uniqueness_reads_in_readset (the uniqueness decision depends only on the entries under the read prefix — "
-       "the reads the store's MVCC records; concurrency is inherited from C05). The FULL invariant is false of the code: witnesses update_sets_null_in_not_null and "
-       "unique_violated_after_delete. Tie: statement outcomes (ok/error class, affected rows) of generated histories vs the Lean driver (autocommit, explicit tx; on "
-       "indexed tables single-row statements). ORACLE (Go, model independent): after EVERY committed transaction full scans through the primary and every secondary "
+       "the reads the store's MVCC records; concurrency is inherited from C05), dml_reads_only_matching_rows (UPDATE/DELETE read only table rows that satisfy their WHERE, "
+       "each at most once, whatever index the plan `Sql/Plan.lean` chooses; the converse is false: witness delete_where_negzero_misses_poszero). The FULL invariant is false of the code: witnesses update_sets_null_in_not_null and "
+       "unique_violated_after_delete. The error a VALUES row ends with follows the code's order (column loop, CHECK, encodedKey column by column, pkMustExist, existing key, doUpsert); UPDATE/DELETE select their rows through "
+       "the model of genScanSpecs/selectINLJIndex/keyReaderSpecFrom (key-byte window, WHERE re-evaluated). Tie: statement outcomes (ok/error class, affected rows) of generated histories vs the Lean driver (autocommit, explicit tx; on "
+       "indexed tables single-row statements); every run sweeps ALL pairs of simultaneous defects of one VALUES row x INSERT/UPSERT/ON CONFLICT on hand-built schemas (c12_prec.go). ORACLE (Go, model independent): after EVERY committed transaction full scans through the primary and every secondary "
        "index: same rows through every index, PK unique, UNIQUE duplicate free, NOT NULL, lengths, CHECK, equals a textbook reference interpreter; must-fail statements "
        "fail; failed statements / rolled back / conflicting transactions leave no trace; 1..4 interleaved sessions (deterministic) and real goroutines. "
        "CONCURRENT SESSIONS (c12_race.go, model Sql/Sessions.lean): theorems unique_writes_are_probed (in every schedule every unique tuple an open transaction wrote is "
@@ -121,7 +123,7 @@ CHECKS = {
        "correspondence; that behaviour is finding R1), DEFAULT values, JSON, FOREIGN KEY, ALTER TABLE, implicit INTEGER->FLOAT conversion; the concurrent-session model covers statements addressed by primary key with every row / unique tuple written once per transaction "
        "(the early `return nil` of checkPreconditions and non-default snapshot options are C05's), duplicate freedom of every reachable store is NOT proved (false in general: R2) "
        "— the harness checks it; the schema history of Sql/CatalogDml.lean is an abstract function generation -> Schema (one table; what DDL does to the catalog is the harness reference's business), "
-       "the catalog-cache model is the C13 one (NewTx is one step; the read-only fill race ro_fill_not_atomic_stale is outside). Known signatures for root causes R1, R2, R3, R4, R9, R18 (SET NOT NULL not persisted), R19 (DROP TABLE with CHECK fails) (known_findings.json).",
+       "the catalog-cache model is the C13 one (NewTx is one step; the read-only fill race ro_fill_not_atomic_stale is outside). Known signatures for root causes R1, R2, R3, R4, R9, R13, R18 (SET NOT NULL not persisted), R19 (DROP TABLE with CHECK fails) (known_findings.json).",
   technique="Lean 4 proof (invariant preservation by induction over the statement interpreter; concrete witnesses by kernel evaluation) + differential correspondence + invariant checking after every commit",
   design="7/C12"),
  "C11": dict(
